@@ -129,12 +129,12 @@ def handleSingle (op : String) (j : Json) : Except String Json := do
     | some c => pure (runOp (maxByO (fn1 key) (cmpInt c)) Val.lst lag src)
     | none => pure (runOp (maxByO (fn1 key) subNum) Val.lst lag src)
   | "to_list" => pure (runOp toListO Val.lst lag src)
-  | "to_set" => pure (runOp (toSetO Val.pyEq) setVal lag src)
+  | "to_set" => pure (runOp (toSetHO Val.hashable Val.pyEq) setVal lag src)
   | "to_dict" =>
     let key ← getFn j "key"
     match ← optFn j "elem" with
-    | some e => pure (runOp (toDictO Val.pyEq (fn1 key) (fn1 e)) Val.dct lag src)
-    | none => pure (runOp (toDictO Val.pyEq (fn1 key) (fun x => .ok x)) Val.dct lag src)
+    | some e => pure (runOp (toDictHO Val.hashable Val.pyEq (fn1 key) (fn1 e)) Val.dct lag src)
+    | none => pure (runOp (toDictHO Val.hashable Val.pyEq (fn1 key) (fun x => .ok x)) Val.dct lag src)
   | "first" => pure (runOp (firstO predF) idV lag src)
   | "first_or_default" => pure (runOp (firstOrDefaultPO predF (← getVal j "default")) idV lag src)
   | "last" => pure (runOp (lastO predF) idV lag src)
